@@ -109,6 +109,11 @@ Theorem painted_name_never_expanded : forall q d o cs ig n s r,
 Proof. exact painted_not_expanded_lemma. Qed.
 Print Assumptions painted_name_never_expanded.
 
+(* an answer of the fuelled loop (tokens or error) is THE answer: more fuel gives the same *)
+Theorem answer_independent_of_fuel : forall q d fuel k s, run q d fuel s <> OutOfFuel -> run q d (fuel + k) s = run q d fuel s.
+Proof. exact run_fuel_mono. Qed.
+Print Assumptions answer_independent_of_fuel.
+
 (* # (C11 6.10.3.2p2): one closed string literal that spells the argument, every run of white space as one space *)
 Theorem stringify_wellformed_and_spells_argument : forall old ts, forallb strfy_ok ts = true ->
   exists body, stringify_toks old ts = TTok KStr (dq :: body ++ [dq]) /\
